@@ -571,6 +571,11 @@ class SeriesOps:
             seqs = [I._concrete_seq(p) for p in pos[1:]]
             return [self.M.invoke(pos[0], list(args), {}, node, "map-callee") for args in zip(*seqs)]
         if fn == "zip":
+            # law (transpose): zip(*[(a(x), b(x), ...) for x in L]) == ([a(x) for x in L], [b(x) for x in L], ...)
+            if len(pos) == 1 and isinstance(a0, tuple) and len(a0) == 2 and a0[0] == "starred" and isinstance(a0[1], tuple) and len(a0[1]) == 5 and a0[1][0] == "comp" and a0[1][1] == "list" \
+                    and isinstance(a0[1][2], tuple) and len(a0[1][2]) == 2 and a0[1][2][0] == "tuple" and not kw:
+                c = a0[1]
+                return [("comp", "list", b, c[3], c[4]) for b in c[2][1]]
             if all(I._concrete_seq(p) is not None for p in pos) and pos:
                 return [PyTuple(list(x)) for x in zip(*[I._concrete_seq(p) for p in pos])]
             return ("zip", tuple(self.M.as_ser_term(p) if isinstance(p, Ser) else to_term(p) for p in pos))
